@@ -80,6 +80,21 @@ def make_shape(rnd, tmp, k):
             with open(os.path.join(cfg, 'merchant_categories.csv.bak'), 'w') as f:
                 f.write('Pattern,Merchant,Category,Subcategory\nOLD BACKUP,Precious,Old,Rules\n')
             shape['bak'] = True
+            if rnd.random() < .5:
+                # an earlier backup that LOOKS like the current file to a shallow comparison: same size, same mtime, other content
+                cur = open(os.path.join(cfg, 'merchant_categories.csv'), 'rb').read()
+                if len(cur) > 8:
+                    alt = bytearray(cur)
+                    for i in range(len(alt) - 1, -1, -1):
+                        if chr(alt[i]).isalpha():
+                            alt[i] = ord(chr(alt[i]).swapcase())
+                            break
+                    if bytes(alt) != cur:
+                        with open(os.path.join(cfg, 'merchant_categories.csv.bak'), 'wb') as f:
+                            f.write(bytes(alt))
+                        for nm in ('merchant_categories.csv', 'merchant_categories.csv.bak'):
+                            os.utime(os.path.join(cfg, nm), (1700000000, 1700000000))
+                        shape['bak_lookalike'] = True
         if rnd.random() < .25:
             with open(os.path.join(cfg, 'merchants.rules'), 'w') as f:
                 f.write(rnd.choice(['# my own unreferenced rules\n[Mine]\nmatch: contains("MINE")\ncategory: Mine\n',
@@ -101,6 +116,15 @@ def make_shape(rnd, tmp, k):
         with open(sp, 'w', encoding='utf-8', newline='') as f:
             f.write(txt.replace('\n', '\r\n'))          # a settings file edited on Windows
         shape['crlf_settings'] = True
+    if not b['views'] and not shape.get('small_views') and not shape.get('crlf_settings') and rnd.random() < .3:
+        # settings name a views file (possibly in a folder) that does not exist: commands warn, they do not create it
+        with open(os.path.join(cfg, 'settings.yaml'), 'a', encoding='utf-8') as f:
+            f.write('views_file: %s\n' % rnd.choice(['config/views.rules', 'config/views/2025.rules', 'config/my views.rules']))
+        shape['dangling_views'] = True
+    if rules == 'none' and rnd.random() < .4:
+        with open(os.path.join(cfg, 'settings.yaml'), 'a', encoding='utf-8') as f:
+            f.write('merchants_file: %s\n' % rnd.choice(['config/merchants.rules', 'config/rules/mine.rules']))
+        shape['dangling_rules'] = True
     if rnd.random() < .3:
         with open(os.path.join(base, 'notes.txt'), 'w') as f:
             f.write('user notes\n')
